@@ -41,11 +41,28 @@ type Renderer struct {
 	RangeConds []string
 	NoMono     bool
 	FpOps      int
+	Axioms     []Axiom
+	anchors    []float64
+	grid       []gridNode
+}
+
+// gridNode: a rounded operation whose result is bounded at the anchor grid by bit-exact
+// native evaluation (monotone rounding: a>=p & b>=q => rnd(a+b) >= fl(p+q), fl computed in Go).
+type gridNode struct {
+	op        string
+	res, a, b string
+	ca, cb    *float64
 }
 
 type famMember struct {
 	e, v    string
 	rounded bool
+	linear  bool
+}
+
+type Axiom struct {
+	Level int
+	Text  string
 }
 
 func NewRenderer(mode Mode) *Renderer {
@@ -413,7 +430,116 @@ func (r *Renderer) addAnchor(lit string) {
 		return
 	}
 	r.anchorSet[lit] = true
-	r.addMember(famMember{e: lit, v: lit, rounded: false})
+	r.addMember(famMember{e: lit, v: lit, rounded: false, linear: true})
+}
+
+// axiom records a tier-R axiom at a refinement level (1 = linear facts, 2 = nonlinear
+// error bounds, 3 = pairwise monotonicity between rounded terms).  Axioms are theorems of
+// IEEE-754 round-to-nearest arithmetic, so asserting any subset is sound for `unsat`.
+func (r *Renderer) axiom(level int, format string, a ...interface{}) {
+	r.Axioms = append(r.Axioms, Axiom{level, fmt.Sprintf("(assert "+format+")\n", a...)})
+}
+
+func (r *Renderer) gridAxioms() string {
+	var sb strings.Builder
+	fin := func(f float64) bool { return !math.IsNaN(f) && !math.IsInf(f, 0) }
+	ge := func(cond, res string, v float64) {
+		if fin(v) {
+			fmt.Fprintf(&sb, "(assert (=> %s (>= %s %s)))\n", cond, res, realLit(v))
+		}
+	}
+	le := func(cond, res string, v float64) {
+		if fin(v) {
+			fmt.Fprintf(&sb, "(assert (=> %s (<= %s %s)))\n", cond, res, realLit(v))
+		}
+	}
+	for _, g := range r.grid {
+		switch {
+		case g.cb != nil || g.ca != nil:
+			// one constant operand
+			var c float64
+			x := g.a
+			constFirst := false
+			if g.ca != nil {
+				c, x, constFirst = *g.ca, g.b, true
+			} else {
+				c = *g.cb
+			}
+			for _, p := range r.anchors {
+				var v float64
+				incr := true // result increasing in x?
+				switch g.op {
+				case "fadd":
+					v = p + c
+				case "fsub":
+					if constFirst {
+						v, incr = c-p, false
+					} else {
+						v = p - c
+					}
+				case "fmul":
+					v = p * c
+					incr = c >= 0
+				case "fdiv":
+					if constFirst {
+						continue
+					}
+					v = p / c
+					incr = c > 0
+					if c == 0 {
+						continue
+					}
+				}
+				lp := realLit(p)
+				if incr {
+					ge("(>= "+x+" "+lp+")", g.res, v)
+					le("(<= "+x+" "+lp+")", g.res, v)
+				} else {
+					le("(>= "+x+" "+lp+")", g.res, v)
+					ge("(<= "+x+" "+lp+")", g.res, v)
+				}
+			}
+		default:
+			for _, p := range r.anchors {
+				for _, q := range r.anchors {
+					lp, lq := realLit(p), realLit(q)
+					switch g.op {
+					case "fadd":
+						ge("(and (>= "+g.a+" "+lp+") (>= "+g.b+" "+lq+"))", g.res, p+q)
+						le("(and (<= "+g.a+" "+lp+") (<= "+g.b+" "+lq+"))", g.res, p+q)
+					case "fsub":
+						ge("(and (>= "+g.a+" "+lp+") (<= "+g.b+" "+lq+"))", g.res, p-q)
+						le("(and (<= "+g.a+" "+lp+") (>= "+g.b+" "+lq+"))", g.res, p-q)
+					case "fmul":
+						if p >= 0 && q >= 0 {
+							ge("(and (>= "+g.a+" "+lp+") (>= "+g.b+" "+lq+"))", g.res, p*q)
+							le("(and (>= "+g.a+" 0.0) (>= "+g.b+" 0.0) (<= "+g.a+" "+lp+") (<= "+g.b+" "+lq+"))", g.res, p*q)
+						}
+					case "fdiv":
+						if p >= 0 && q > 0 {
+							ge("(and (>= "+g.a+" "+lp+") (> "+g.b+" 0.0) (<= "+g.b+" "+lq+"))", g.res, p/q)
+							le("(and (>= "+g.a+" 0.0) (<= "+g.a+" "+lp+") (>= "+g.b+" "+lq+"))", g.res, p/q)
+						}
+					}
+				}
+			}
+		}
+	}
+	return sb.String()
+}
+
+// AxiomText returns the axioms of level lo < l <= hi.
+func (r *Renderer) AxiomText(lo, hi int) string {
+	var sb strings.Builder
+	if lo < 2 && hi >= 2 && len(r.anchors) <= 24 {
+		sb.WriteString(r.gridAxioms())
+	}
+	for _, a := range r.Axioms {
+		if a.Level > lo && a.Level <= hi {
+			sb.WriteString(a.Text)
+		}
+	}
+	return sb.String()
 }
 
 func (r *Renderer) addMember(m famMember) {
@@ -422,25 +548,79 @@ func (r *Renderer) addMember(m famMember) {
 			if !o.rounded && !m.rounded {
 				continue
 			}
-			fmt.Fprintf(&r.buf, "(assert (=> (<= %s %s) (<= %s %s)))\n", m.e, o.e, m.v, o.v)
-			fmt.Fprintf(&r.buf, "(assert (=> (<= %s %s) (<= %s %s)))\n", o.e, m.e, o.v, m.v)
+			lvl := 3
+			if m.linear && o.linear && (!m.rounded || !o.rounded) {
+				lvl = 1 // monotone w.r.t. a representable anchor, linear exact terms
+			}
+			r.axiom(lvl, "(=> (<= %s %s) (<= %s %s))", m.e, o.e, m.v, o.v)
+			r.axiom(lvl, "(=> (<= %s %s) (<= %s %s))", o.e, m.e, o.v, m.v)
+			// a rounding result is itself representable: rnd(v)=v
+			if m.rounded && o.rounded {
+				r.axiom(3, "(=> (<= %s %s) (<= %s %s))", m.e, o.v, m.v, o.v)
+				r.axiom(3, "(=> (<= %s %s) (<= %s %s))", o.v, m.e, o.v, m.v)
+				r.axiom(3, "(=> (<= %s %s) (<= %s %s))", o.e, m.v, o.v, m.v)
+				r.axiom(3, "(=> (<= %s %s) (<= %s %s))", m.v, o.e, m.v, o.v)
+			}
 		}
 	}
 	r.family = append(r.family, m)
 }
 
 // rounded declares the rounded result of an exact real expression.
-func (r *Renderer) rounded(t *Term, exact string, intValued bool) string {
+func (r *Renderer) rounded(t *Term, exact string, intValued bool, linear bool) string {
 	r.FpOps++
 	name := fmt.Sprintf("r%d", t.ID)
 	e := fmt.Sprintf("e%d", t.ID)
 	fmt.Fprintf(&r.buf, "(declare-const %s Real)\n(define-fun %s () Real %s)\n", name, e, exact)
-	fmt.Fprintf(&r.buf, "(assert (<= (absr (- %s %s)) (+ (* (/ 1.0 %s) (absr %s)) %s)))\n", name, e, pow2_53, e, tinyLit)
-	if intValued {
-		fmt.Fprintf(&r.buf, "(assert (=> (<= (absr %s) %s) (= %s %s)))\n", e, pow2_53, name, e)
+	lvl := 2
+	if linear {
+		lvl = 1
 	}
-	r.addMember(famMember{e: e, v: name, rounded: true})
+	r.axiom(lvl, "(<= (absr (- %s %s)) (+ (* (/ 1.0 %s) (absr %s)) %s))", name, e, pow2_53, e, tinyLit)
+	if intValued {
+		r.axiom(lvl, "(=> (<= (absr %s) %s) (= %s %s))", e, pow2_53, name, e)
+	}
+	r.addMember(famMember{e: e, v: name, rounded: true, linear: linear})
 	return name
+}
+
+func (r *Renderer) addGrid(t *Term, res string, a []string) {
+	g := gridNode{op: t.Op, res: res, a: a[0], b: a[1]}
+	if t.Args[0].IsConst() {
+		f := t.Args[0].F
+		g.ca = &f
+	}
+	if t.Args[1].IsConst() {
+		f := t.Args[1].F
+		g.cb = &f
+	}
+	r.grid = append(r.grid, g)
+}
+
+// productLemmas: linear consequences of monotone correct rounding for r = rnd(a*b)
+// (a, b representable), and for r = rnd(a/b).
+func (r *Renderer) productLemmas(res, a, b string) {
+	r.axiom(1, "(=> (or (and (>= %s 0.0) (>= %s 0.0)) (and (<= %s 0.0) (<= %s 0.0))) (>= %s 0.0))", a, b, a, b, res)
+	r.axiom(1, "(=> (or (and (>= %s 0.0) (<= %s 0.0)) (and (<= %s 0.0) (>= %s 0.0))) (<= %s 0.0))", a, b, a, b, res)
+	r.axiom(1, "(=> (or (= %s 0.0) (= %s 0.0)) (= %s 0.0))", a, b, res)
+	for _, p := range [][2]string{{a, b}, {b, a}} {
+		x, y := p[0], p[1]
+		r.axiom(1, "(=> (and (>= %s 0.0) (>= %s 0.0) (<= %s 1.0)) (<= %s %s))", x, y, y, res, x)
+		r.axiom(1, "(=> (and (>= %s 0.0) (>= %s 1.0)) (>= %s %s))", x, y, res, x)
+		r.axiom(1, "(=> (= %s 1.0) (= %s %s))", y, res, x)
+	}
+}
+
+func (r *Renderer) quotientLemmas(res, a, b string) {
+	r.axiom(1, "(=> (or (and (>= %s 0.0) (> %s 0.0)) (and (<= %s 0.0) (< %s 0.0))) (>= %s 0.0))", a, b, a, b, res)
+	r.axiom(1, "(=> (or (and (>= %s 0.0) (< %s 0.0)) (and (<= %s 0.0) (> %s 0.0))) (<= %s 0.0))", a, b, a, b, res)
+	r.axiom(1, "(=> (and (= %s 0.0) (not (= %s 0.0))) (= %s 0.0))", a, b, res)
+	r.axiom(1, "(=> (and (>= %s 0.0) (>= %s 1.0)) (<= %s %s))", a, b, res, a)
+	r.axiom(1, "(=> (and (>= %s 0.0) (> %s 0.0) (<= %s 1.0)) (>= %s %s))", a, b, b, res, a)
+	r.axiom(1, "(=> (and (>= %s 0.0) (> %s 0.0) (<= %s %s)) (<= %s 1.0))", a, b, a, b, res)
+	r.axiom(1, "(=> (and (> %s 0.0) (>= %s %s)) (>= %s 1.0))", b, a, b, res)
+	r.axiom(1, "(=> (and (= %s %s) (not (= %s 0.0))) (= %s 1.0))", a, b, b, res)
+	r.axiom(1, "(=> (= %s 1.0) (= %s %s))", b, res, a)
 }
 
 func (r *Renderer) refReal(t *Term) string {
@@ -454,6 +634,9 @@ func (r *Renderer) refReal(t *Term) string {
 			return "false"
 		case KFloat:
 			lit := realLit(t.F)
+			if !r.anchorSet[lit] {
+				r.anchors = append(r.anchors, t.F)
+			}
 			r.addAnchor(lit)
 			return lit
 		}
@@ -520,20 +703,36 @@ func (r *Renderer) refReal(t *Term) string {
 		}
 		return n
 	// floats as rounded reals
-	case "fadd":
-		return r.rounded(t, "(+ "+a[0]+" "+a[1]+")", floatIntValued(t))
-	case "fsub":
-		return r.rounded(t, "(- "+a[0]+" "+a[1]+")", floatIntValued(t))
+	case "fadd", "fsub":
+		op := "+"
+		if t.Op == "fsub" {
+			op = "-"
+		}
+		n := r.rounded(t, "("+op+" "+a[0]+" "+a[1]+")", floatIntValued(t), true)
+		r.addGrid(t, n, a)
+		return n
 	case "fmul":
 		if isPow2Const(t.Args[0]) || isPow2Const(t.Args[1]) {
 			return r.def(t, "(* "+a[0]+" "+a[1]+")") // exact scaling (underflow excluded by the magnitude side condition)
 		}
-		return r.rounded(t, "(* "+a[0]+" "+a[1]+")", floatIntValued(t))
+		lin := t.Args[0].IsConst() || t.Args[1].IsConst()
+		n := r.rounded(t, "(* "+a[0]+" "+a[1]+")", floatIntValued(t), lin)
+		if !lin {
+			r.productLemmas(n, a[0], a[1])
+		}
+		r.addGrid(t, n, a)
+		return n
 	case "fdiv":
 		if isPow2Const(t.Args[1]) {
 			return r.def(t, "(/ "+a[0]+" "+a[1]+")")
 		}
-		return r.rounded(t, "(/ "+a[0]+" "+a[1]+")", false)
+		lin := t.Args[1].IsConst()
+		n := r.rounded(t, "(/ "+a[0]+" "+a[1]+")", false, lin)
+		if !lin {
+			r.quotientLemmas(n, a[0], a[1])
+		}
+		r.addGrid(t, n, a)
+		return n
 	case "fneg":
 		return r.def(t, "(- "+a[0]+")")
 	case "fabs":
@@ -548,15 +747,18 @@ func (r *Renderer) refReal(t *Term) string {
 		r.FpOps++
 		name := fmt.Sprintf("r%d", t.ID)
 		fmt.Fprintf(&r.buf, "(declare-const %s Real)\n", name)
-		fmt.Fprintf(&r.buf, "(assert (and (>= %s 0.0) (<= (* %s %s) (* %s (+ 1.0 (/ 4.0 %s)))) (>= (* %s %s) (* %s (- 1.0 (/ 4.0 %s))))))\n",
-			name, name, name, a[0], pow2_53, name, name, a[0], pow2_53)
+		r.axiom(1, "(>= %s 0.0)", name)
+		r.axiom(1, "(=> (>= %s 1.0) (and (>= %s 1.0) (<= %s %s)))", a[0], name, name, a[0])
+		r.axiom(1, "(=> (and (>= %s 0.0) (<= %s 1.0)) (and (<= %s 1.0) (>= %s %s)))", a[0], a[0], name, name, a[0])
+		r.axiom(2, "(and (<= (* %s %s) (* %s (+ 1.0 (/ 4.0 %s)))) (>= (* %s %s) (* %s (- 1.0 (/ 4.0 %s)))))",
+			name, name, a[0], pow2_53, name, name, a[0], pow2_53)
 		return name
 	case "flog10":
 		name := r.def(t, "(log10r "+a[0]+")")
 		p := 1.0
 		for k := 0; k <= 19; k++ {
-			fmt.Fprintf(&r.buf, "(assert (=> (>= %s %s) (>= %s (- %d.0 (/ 1.0 1099511627776.0)))))\n", a[0], realLit(p), name, k)
-			fmt.Fprintf(&r.buf, "(assert (=> (< %s %s) (< %s %d.0)))\n", a[0], realLit(p*10), name, k+1)
+			r.axiom(1, "(=> (>= %s %s) (>= %s (- %d.0 (/ 1.0 1099511627776.0))))", a[0], realLit(p), name, k)
+			r.axiom(1, "(=> (< %s %s) (< %s %d.0))", a[0], realLit(p*10), name, k+1)
 			p *= 10
 		}
 		return name
@@ -575,10 +777,10 @@ func (r *Renderer) refReal(t *Term) string {
 	case "i2f":
 		if t.Args[0].Sort.Width <= 32 {
 			n := r.def(t, "(to_real "+a[0]+")")
-			r.addMember(famMember{e: n, v: n, rounded: false})
+			r.addMember(famMember{e: n, v: n, rounded: false, linear: true})
 			return n
 		}
-		return r.rounded(t, "(to_real "+a[0]+")", true)
+		return r.rounded(t, "(to_real "+a[0]+")", true, true)
 	case "f2i":
 		return intRes("(trunci " + a[0] + ")")
 	}
